@@ -3,6 +3,16 @@
 import json, subprocess
 ALL=[f"C{i:02d}" for i in range(1,20)]
 CLAIMED={
+ "C03": dict(
+   text="14 harnesses of 2-3 client threads on the real server (journal logger/installer and shrinker included) explored exhaustively within a deviation bound under a cooperative scheduler that owns every mutex, condition variable, goroutine and disk operation; every complete execution is checked for linearizability (replies incl. post-op attributes and listings, final dump) against the reference file system by brute force; final-state fsck and cache/allocator audit.",
+   note="Trusted: the scheduler shim; race-freedom of the harnesses (C14) for the happens-before state caching (cross-checked against an uncached search on two harnesses in every run); reference model. Bounds: 2-3 clients with 1-2 RPCs, deviation bound 1 (quick) / 2 (thorough): a deviation = preempting a runnable thread or running a journal daemon while a client could run.",
+   technique="stateless deviation-bounded schedule exploration of the implementation (controlled scheduler) with happens-before state caching and a linearizability oracle",
+   ref="DESIGN.md 4 (C03)"),
+ "C06": dict(
+   text="(a) explicit-state search over requests whose inodes coincide or are ordered arbitrarily: a single client never waits on itself or exceeds the horizon; (b) lock-acquisition traces of every probe operation in states with inverted inode numbers and cold caches, every opposite-order pair run concurrently under all schedules within the bound - only a real deadlock schedule counts; (c) deadlock verdicts of the C03 harnesses. Deadlocks are identified by the call sites on the wait-for cycle.",
+   note="Trusted: scheduler shim; lock events woven into the go-journal copy's lockmap. Bounds: depth, probe alphabet, four named states, deviation bound 2/3.",
+   technique="explicit-state search + predictive lock-order analysis confirmed by deviation-bounded schedule exploration of the implementation",
+   ref="DESIGN.md 4 (C06)"),
  "C01": dict(
    text="Every history to the tier's depth over a 13-symbol crash alphabet is run on the real server on a recording disk; every crash image (every cut of the write/barrier trace x every loss choice of un-barriered writes, full product up to the cap per epoch) is checked with an independent fsck and recovered with the real MakeNfs under two schedules; the recovered tree must equal the reference after a prefix containing every stably acknowledged operation; then allocator/cache audit, further operations, dump and fsck.",
    note="Trusted: Disk contract (atomic block writes; Barrier persists all earlier writes), reference model, the canonical image key (home blocks + header + live log entries). Bounds: history depth, alphabet, loss product cap (capped epochs fall back to <=2 deviations + issue-order prefixes and are reported exhaustive:false), two background policies and two recovery schedules rather than all schedules; nested crash during recovery only for the KVS/simple checks.",
